@@ -81,7 +81,15 @@ def binArith (op : BinOp) (x y : N) : R N :=
   | .mult => .ok (Num.mul x y)
   | .div => .ok (Num.div x y)
   | .intDiv => ints fun a b => if b = 0 then .error .error else .ok (wrap64 (Int.tdiv a b))
-  | .mod => ints fun a b => if b = 0 then .error .oom else .ok (Int.tmod a b)
+  | .mod =>
+    -- `math.Mod` on integral operands; a zero result carries the sign of the dividend (IEEE -0)
+    match Num.toInt? x, Num.toInt? y with
+    | some a, some b =>
+      if b = 0 then .error .oom
+      else
+        let r := Int.tmod a b
+        if r = 0 ∧ a < 0 then .ok (Num.neg (Num.ofInt 0)) else .ok (Num.ofInt r)
+    | _, _ => .error .oom
   | .bitAnd => ints fun a b => .ok (BitVec.ofInt 64 a &&& BitVec.ofInt 64 b).toInt
   | .bitOr => ints fun a b => .ok (BitVec.ofInt 64 a ||| BitVec.ofInt 64 b).toInt
   | .bitXor => ints fun a b => .ok (BitVec.ofInt 64 a ^^^ BitVec.ofInt 64 b).toInt
@@ -437,7 +445,7 @@ def prepare (env : Env N) (data : Row N) (sc : Scope) : Query N → R (Prepared 
     let (rows, dual, _) ← evalFrom env data' sc' frm
     let grouped := !groupBy.isEmpty
     let selectRows (ctx : Ctx N) (rs : List (Val N)) : R (List (Val N)) :=
-      if isAllAggr sel then do
+      if isAllAggr sel && !ctx.grouped then do
         let row ← evalSel env ctx [] sel []
         pure [.obj row]
       else mapE (fun r =>
